@@ -269,6 +269,28 @@ Proof.
 Qed.
 Print Assumptions memattr_all_histories_ext.
 
+(* ---- hwloc_topology_allow ---- *)
+(* The refresh intersects cpuset initiators with the ROOT cpuset ([refresh_imi]), never with the
+   allowed cpuset: whatever hwloc_topology_allow does (any sets, any flags, with or without
+   INCLUDE_DISALLOWED), the memory-attribute state is the same afterwards, so every later call
+   answers as if allow had not happened; stored initiators inside the root cpuset survive any allow. *)
+Theorem memattr_allow_irrelevant :
+  forall s incl c n f, fst (step s (OAllow incl c n f)) = s.
+Proof. reflexivity. Qed.
+Print Assumptions memattr_allow_irrelevant.
+
+Theorem memattr_allow_then_any :
+  forall s incl c n f ops, run s (OAllow incl c n f :: ops) = run s ops /\
+  forall o, step (fst (step s (OAllow incl c n f))) o = step s o.
+Proof. intros. split; reflexivity. Qed.
+Print Assumptions memattr_allow_then_any.
+
+(* a stored cpuset initiator inside the root cpuset is a fixpoint of the refresh *)
+Theorem memattr_refresh_keeps_in_root_initiators :
+  forall t i, istable t i -> refresh_imi t i = Some (ok_imi i).
+Proof. exact refresh_imi_stable. Qed.
+Print Assumptions memattr_refresh_keeps_in_root_initiators.
+
 (* ---- default nodeset ---- *)
 Theorem default_nodeset_disjoint_existing :
   forall s set,
